@@ -16,7 +16,7 @@ GroupBad(g, vals, lb, ub, name) ==
   ELSE "ok"
 
 Check(e) ==
-  LET lin == <<e.v[1] + e.v[2], e.v[1] - e.v[2]>>
+  LET lin == <<2 * (e.v[1] + e.v[2]), e.v[1] - e.v[2]>>        \* rows (2, 2) and (1, -1)
       nl  == <<e.v[1] + 1, 2 * e.v[2]>>
       vlb == IF e.vfree THEN <<-INF, -INF>> ELSE e.lb          \* the variable bounds in force
       vub == IF e.vfree THEN <<INF, INF>> ELSE e.ub
